@@ -4,12 +4,14 @@ Stateless model checking of 2-3 real threads on the ENABLE_SHARABLE_DEVICE build
 scheduler (scheduling points = mutex lock/unlock, thread start/exit), all schedules up to a preemption
 bound; oracle = live-object counters, memory accounting, handle validity at quiescence, ASan.
 Thorough tier adds a separate free-running ThreadSanitizer pass of the same bodies."""
-import json, os, re, subprocess, sys, time
+import json, os, re, resource, subprocess, sys, time
 from concurrent.futures import ThreadPoolExecutor
 sys.path.insert(0, os.path.dirname(os.path.dirname(os.path.dirname(os.path.abspath(__file__)))))
 from vlib.core import Check, load_replay, NCPU, run_main, san_env
 
 HERE = os.path.dirname(os.path.abspath(__file__))
+import threading
+RETRY_LOCK = threading.Lock()
 
 
 class X:
@@ -19,8 +21,11 @@ class X:
 def run_schedule(exe, scn, prefix, env, timeout=60):
     arg = ",".join(str(c) for c in prefix) if prefix else "-"
     try:
-        p = subprocess.run([exe, scn, arg], stdout=subprocess.PIPE, stderr=subprocess.PIPE, env=env, timeout=timeout)
+        p = subprocess.run([exe, scn, arg], stdout=subprocess.PIPE, stderr=subprocess.PIPE, env=env, timeout=timeout,
+                           preexec_fn=lambda: resource.setrlimit(resource.RLIMIT_CPU, (8, 9)))
         out, err, rc, to = p.stdout.decode("utf-8", "replace"), p.stderr.decode("utf-8", "replace"), p.returncode, False
+        if rc in (-24, -9) :      # SIGXCPU / SIGKILL from the CPU-time limit: an endless loop (load-independent)
+            to = True
     except subprocess.TimeoutExpired as e:
         out, err, rc, to = (e.stdout or b"").decode("utf-8", "replace"), (e.stderr or b"").decode("utf-8", "replace"), -9, True
     x = X()
@@ -46,6 +51,62 @@ def run_schedule(exe, scn, prefix, env, timeout=60):
             x.misuse = int(ln.split()[1])
     x.rc, x.err, x.timeout = rc, err, to
     return x
+
+
+def parse_run(out, err, rc, to):
+    x = X()
+    x.points, x.choices, x.kinds = [], [], []
+    x.fails, x.deadlock, x.diverged, x.oracle, x.misuse = [], False, False, None, 0
+    for ln in out.split("\n"):
+        if ln.startswith("POINT "):
+            m = re.match(r"POINT (\d+) re=(\d) chosen=(\d+) kind=(\S+) enabled=(\S+)", ln)
+            if not m:
+                continue
+            en = [int(v) for v in m.group(5).split(",")]
+            x.points.append({"enabled": en, "running_enabled": m.group(2) == "1", "cand": True})
+            x.choices.append(en.index(int(m.group(3))))
+            x.kinds.append("T%s:%s" % (m.group(3), m.group(4)))
+        elif ln.startswith("FAIL "):
+            sig, _, detail = ln[5:].partition("\t")
+            x.fails.append((sig, detail))
+        elif ln.startswith("DEADLOCK"):
+            x.deadlock = True
+        elif ln.startswith("DIVERGED"):
+            x.diverged = True
+        elif ln.startswith("ORACLE "):
+            x.oracle = ln.split()[1]
+        elif ln.startswith("MISUSE "):
+            x.misuse = int(ln.split()[1])
+    x.rc, x.err, x.timeout = rc, err, to
+    return x
+
+
+def run_batch(exe, scn, prefixes, env, workdir, tag, deadline):
+    """run many schedules in one harness process (fork per schedule after library start-up)."""
+    if time.time() > deadline:
+        return None
+    path = os.path.join(workdir, "batch-%s.txt" % tag)
+    with open(path, "w") as f:
+        for p in prefixes:
+            f.write((",".join(str(c) for c in p) if p else "-") + "\n")
+    try:
+        pr = subprocess.run([exe, scn, "@" + path], stdout=subprocess.PIPE, stderr=subprocess.PIPE, env=env, timeout=600 + 10 * len(prefixes))
+        out = pr.stdout.decode("utf-8", "replace")
+    except subprocess.TimeoutExpired as e:
+        out = (e.stdout or b"").decode("utf-8", "replace")
+    res = []
+    blocks = out.split("BEGIN ")[1:]
+    for i, p in enumerate(prefixes):
+        if i >= len(blocks):
+            res.append(None)      # batch process died: caller re-runs these singly
+            continue
+        body = blocks[i]
+        m = re.search(r"\nEND \d+ (-?\d+)", body)
+        rc = int(m.group(1)) if m else -1
+        text = body[:m.start()] if m else body
+        res.append(parse_run(text, text, rc, rc in (-24, -9)))
+    os.unlink(path)
+    return res
 
 
 def crash_signature(err):
@@ -92,14 +153,16 @@ def main():
         v = []
         if x.diverged:
             return [("HARNESS-DIVERGED", "")]
+        # memory-unsafety shows up as different symptoms of one cause depending on the schedule
+        # (use-after-free, SEGV, double free, or an endless walk of a corrupted ring): one signature per scenario
         if x.timeout:
-            v.append(("hang:%s" % scn, "schedule did not finish within the limit"))
+            v.append(("unsafe:%s" % scn, "hang: schedule exceeded 8 s of CPU time (a schedule needs < 1 s) or the wall-clock limit when re-run alone"))
         elif x.deadlock:
             v.append(("deadlock:%s" % scn, "no enabled thread; trace tail: %s" % " ".join(x.kinds[-6:])))
         elif x.rc not in (0, 1) or x.oracle is None:
             cls, fn = crash_signature(x.err)
             first = next((l.strip() for l in x.err.split("\n") if "ERROR:" in l or "SUMMARY" in l), x.err.strip()[-200:])
-            v.append(("%s:%s:%s" % (cls, scn, fn), "exit %s: %s" % (x.rc, first[:300])))
+            v.append(("unsafe:%s" % scn, "%s in %s, exit %s: %s" % (cls, fn, x.rc, first[:300])))
         for sig, detail in x.fails:
             v.append(("oracle-%s:%s" % (sig, scn), detail))
         return v
@@ -154,12 +217,27 @@ def main():
             for p in batch:
                 seen_prefix.add(tuple(p))
             nxt = []
+            chunks = [batch[i::NCPU] for i in range(NCPU) if batch[i::NCPU]]
+            def one(ci):
+                r = run_batch(exe, scn, chunks[ci], env, c.scratch, "%s-%d" % (scn, ci), deadline)
+                if r is None:
+                    return None
+                for k, x in enumerate(r):
+                    if x is None or (x.timeout and x.rc not in (-24, -9)):
+                        r[k] = run_schedule(exe, scn, chunks[ci][k], env, timeout=300)
+                return r
             with ThreadPoolExecutor(max_workers=NCPU) as ex:
-                for pref, x in zip(batch, ex.map(lambda p: run_schedule(exe, scn, p, env), batch)):
-                    done += 1
-                    allx.append((pref, x))
-                    nxt.extend(successors(x, len(pref), bound))
+                for ci, r in enumerate(ex.map(one, range(len(chunks)))):
+                    if r is None:
+                        exhaustive = False
+                        continue
+                    for pref, x in zip(chunks[ci], r):
+                        done += 1
+                        allx.append((pref, x))
+                        nxt.extend(successors(x, len(pref), bound))
             frontier = nxt
+            if not exhaustive:
+                break
         for pref, x in allx:
             transitions += len(x.points)
             v = judge(scn, x)
